@@ -103,6 +103,7 @@ type Once struct {
 }
 
 func (o *Once) Do(f func()) {
+	register(o)
 	if o.done.Load() == 0 {
 		o.doSlow(f)
 	}
@@ -117,36 +118,63 @@ func (o *Once) doSlow(f func()) {
 	}
 }
 
-// Once objects hidden inside OnceFunc / OnceValue closures cannot be reached
-// by the generated snapshot of package-level variables; they are registered
-// here so that the explorer can put them back into the cold state.
-var registered []*Once
+// A Once may live where the generated snapshot of package-level variables
+// cannot reach it: inside an OnceFunc / OnceValue closure, or in a struct
+// captured by a hand-written lazy-initialisation closure. Every Once is
+// therefore registered when it is first used, and the explorer puts all of
+// them back into their cold state: the state recorded by SnapshotRegistered
+// for those already used by then (package initialisation), the zero state for
+// the others.
+var (
+	registered []*Once
+	regSet     = map[*Once]bool{}
+	coldState  = map[*Once]Once{}
+)
 
-// RegisteredState serialises the closure-held Once objects (for state keys).
+func register(o *Once) {
+	if !regSet[o] {
+		regSet[o] = true
+		registered = append(registered, o)
+	}
+}
+
+// SnapshotRegistered records the present state of every Once used so far as
+// its cold state.
+func SnapshotRegistered() {
+	for _, o := range registered {
+		coldState[o] = *o
+	}
+}
+
+// RegisteredState serialises the registered Once objects (for state keys).
 func RegisteredState() []byte {
 	var b []byte
 	for _, o := range registered {
-		b = append(b, fmt.Sprint(*o)...)
+		b = append(b, fmt.Sprint(*o)...) // raw fields: no scheduling point
 	}
 	return b
 }
 
-// ResetRegistered returns every closure-held Once to "not yet run".
+// ResetRegistered returns every registered Once to its cold state.
 func ResetRegistered() {
 	for _, o := range registered {
-		*o = Once{}
+		if c, ok := coldState[o]; ok {
+			*o = c
+		} else {
+			*o = Once{}
+		}
 	}
 }
 
 func OnceFunc(f func()) func() {
 	once := new(Once)
-	registered = append(registered, once)
+	register(once)
 	return func() { once.Do(f) }
 }
 
 func OnceValue[T any](f func() T) func() T {
 	once := new(Once)
-	registered = append(registered, once)
+	register(once)
 	var v T
 	return func() T {
 		once.Do(func() { v = f() })
@@ -156,7 +184,7 @@ func OnceValue[T any](f func() T) func() T {
 
 func OnceValues[T1, T2 any](f func() (T1, T2)) func() (T1, T2) {
 	once := new(Once)
-	registered = append(registered, once)
+	register(once)
 	var v1 T1
 	var v2 T2
 	return func() (T1, T2) {
